@@ -54,6 +54,14 @@ def run(ctx):
     from ..rules import datescan as DS
     n_date = DS.obligations(ctx, u, "R10.9")
     ctx.require(n_date >= 60, "R10.9: only %d date probes evaluated" % n_date)
+    ctx.rule("R10.10", "PREV-SLOT: in both list printers the value handed to rtosc_print_arg_val as the one before a range is the slot directly in front of the current position of the original list (NULL for the first) - the loop's own bookkeeping is evaluated with arguments that span 1..4 slots and with printer-made ranges")
+    from ..rules import prevslot as PSL
+    sites_ = PSL.list_sites(u)
+    ctx.require(len(sites_) >= 2, "R10.10: the two list printers were not found (%d)" % len(sites_))
+    for q_, fn_, lp_, c_ in sites_:
+        bad_ = PSL.run_site(u, fn_, lp_)
+        ctx.ob("R10.10", "%s: value before a range" % q_, not bad_, site=A.where(c_), detail={"scenarios": len(PSL.SCENARIOS), "mismatches": bad_[:3]},
+               what="%s hands rtosc_print_arg_val a value that is not the slot in front of the current argument: %s" % (q_, bad_[:2]))
     pr = u.function("as_escaped_char")
     sc = u.function("get_escaped_char")
     ev = FD.Eval()
